@@ -154,6 +154,31 @@ def iptVerdict (env : Env) (r : Rules) (p : Pkt) : Verdict :=
   | (.deny, _) => .deny
   | (_, stale) => iptProfiles env p stale r.profiles
 
+/-! ### Staged policies
+
+An endpoint's tier lists policies of which some are STAGED (not enforced).  All three
+implementations evaluate the ENFORCED VIEW: staged policies are skipped, and a tier left without
+any enforced policy contributes nothing, its default action included (checker:
+`policiesInScope == 0`; BPF: `extractTiers` gives such a tier an end-of-tier pass; iptables: no
+end-of-tier drop rule without non-staged policies). -/
+
+structure PolS where
+  staged : Bool
+  rules : List Rule
+
+structure TierS where
+  endAction : EndAction
+  policies : List PolS
+
+/-- The enforced view of a tier (a tier with no enforced policy becomes a pass-through tier
+without policies). -/
+def enforcedTier (t : TierS) : Tier :=
+  let ps := (t.policies.filter (fun p => !p.staged)).map (fun p => Policy.mk p.rules)
+  if ps.isEmpty then { endAction := .pass, endRuleID := 0, policies := [] }
+  else { endAction := t.endAction, endRuleID := 0, policies := ps }
+
+def enforcedView (ts : List TierS) : List Tier := ts.map enforcedTier
+
 /-- BPF (workload interface, no host policy): `C11.workloadVerdict`. -/
 def bpfVerdict (env : Env) (r : Rules) (p : Pkt) : Verdict := workloadVerdict env { r with forHostInterface := false } p
 
